@@ -20,6 +20,9 @@ def _exprs_to_axes(exprs):
     for root in exprs:
         for expr in root.nodes():
             if isinstance(expr, stage3.Axis):
+                if expr._is_unnamed or expr.name.startswith("."):
+                    # Numerical axes and anonymous ellipses have no name that could be reported
+                    continue
                 tokens = expr.name.split(".")
                 values[tokens[0]].append((tuple(int(t) for t in tokens[1:]), expr.value))
 
